@@ -17,6 +17,7 @@ import Hpv.Validate
 import Hpv.Io
 import Hpv.Obo
 import Hpv.Hpoa
+import Hpv.Store
 open Lean
 
 namespace Drv
@@ -612,6 +613,117 @@ def hpoaLoad (j : Json) : Except String Json := do
       return Json.mkObj [("version", toJson version), ("diseases", Json.arr out), ("table_ok", tableOk)]
 end C08
 
+/-! ### C07 -/
+section C07
+open Hpv.Store
+
+abbrev SKey := Hpv.Store.Key
+
+def tyOf : String → Except String Ty
+  | "HPO" => pure .hpo | "MAxO" => pure .maxo | "MONDO" => pure .mondo
+  | s => throw s!"unknown ontology type {s}"
+
+def tyName : Ty → String
+  | .hpo => "HPO" | .maxo => "MAxO" | .mondo => "MONDO"
+
+def choiceOf (j : Json) : Choice :=
+  match j with
+  | .str "ok" => .ok
+  | .str "fail" => .fail
+  | .str "die" => .die
+  | .num n => .failAfter n.mantissa.toNat
+  | _ => .ok
+
+structure Plan where
+  tags : Choice
+  fetch : Choice
+  read : Choice
+  write : Choice
+  dieAt : Option Nat        -- kill before the `dieAt`-th step (0-based)
+
+def planChoice (p : Plan) (pc : PC) : Choice :=
+  match pc with
+  | .start _ none => p.tags
+  | .tmpMade _ => p.fetch
+  | .fetched _ _ => p.read
+  | .haveBytes _ _ => p.write
+  | _ => .ok
+
+def terminal : PC → Bool
+  | .loaded _ _ | .failed | .dead | .idle => true
+  | _ => false
+
+def pcName : PC → String
+  | .idle => "idle" | .start _ _ => "start" | .resolved _ => "resolved" | .checked _ => "checked" | .dirMade _ => "dirMade"
+  | .tmpMade _ => "tmpMade" | .fetched _ _ => "fetched" | .haveBytes _ _ => "haveBytes" | .written _ => "written" | .hit _ => "hit"
+  | .loaded _ _ => "loaded" | .cleanup _ => "cleanup" | .failed => "failed" | .dead => "dead"
+
+/-- run loader `t` to a terminal pc under the plan; returns the world and the pcs it went through -/
+def runLoad (w : World) (t : Nat) (p : Plan) : World × List String :=
+  let rec go (fuel : Nat) (w : World) (i : Nat) (trace : List String) : World × List String :=
+    match fuel with
+    | 0 => (w, trace.reverse)
+    | fuel + 1 =>
+      if terminal (w.pcs t) then (w, trace.reverse)
+      else
+        let c := if p.dieAt = some i then Choice.die else planChoice p (w.pcs t)
+        go fuel (stepLoader w t c) (i + 1) (pcName (w.pcs t) :: trace)
+  go 20 w 0 []
+
+def worldJson (w : World) (keys : List SKey) (tmps : List (Ty × Nat)) : Json :=
+  Json.mkObj [
+    ("cache", toJson (keys.filterMap fun k => (w.files (.cache k)).map fun c => Json.arr #[tyName k.ty, toJson k.rel, toJson c])),
+    ("tmp", toJson ((tmps.filter fun p => (w.files (.tmp p.1 p.2)).isSome).length)),
+    ("fetches", toJson (w.log.filterMap fun e => match e with | .fetch _ k => some (Json.arr #[tyName k.ty, toJson k.rel]) | _ => none))]
+
+def storeRun (j : Json) : Except String Json := do
+  -- remote: [[ty, rel, bytes]], tags: [[ty, [rels]]], ops
+  let remoteL ← (← j.getObjValAs? (List Json) "remote").mapM fun r => do
+    let a ← r.getArr?
+    return ((⟨← tyOf (← (a[0]?.getD Json.null).getStr?), ← (a[1]?.getD Json.null).getNat?⟩ : SKey), ← fromJson? (α := List Nat) (a[2]?.getD Json.null))
+  let tagsL ← (← j.getObjValAs? (List Json) "tags").mapM fun r => do
+    let a ← r.getArr?
+    return (← tyOf (← (a[0]?.getD Json.null).getStr?), ← fromJson? (α := List Nat) (a[1]?.getD Json.null))
+  let remote : SKey → Option Bytes := fun k => (remoteL.find? (fun p => p.1 = k)).map (·.2)
+  let tags : Ty → List Nat := fun ty => ((tagsL.find? (fun p => p.1 = ty)).map (·.2)).getD []
+  let keys := remoteL.map (·.1) ++ (tagsL.flatMap fun p => p.2.map fun r => (⟨p.1, r⟩ : SKey))
+  let ops ← j.getObjValAs? (Array Json) "ops"
+  let mut w := World.init remote tags
+  let mut outs : Array Json := #[]
+  let mut tmps : List (Ty × Nat) := []
+  let mut t := 0
+  for opj in ops do
+    let a ← opj.getArr?
+    let k ← (a[0]?.getD Json.null).getStr?
+    match k with
+    | "load" =>
+      let ty ← tyOf (← (a[1]?.getD Json.null).getStr?)
+      let rel : Option Nat := (a[2]?.getD Json.null).getNat?.toOption
+      let pj := a[3]?.getD Json.null
+      let g (n : String) : Choice := match pj.getObjVal? n with | .ok v => choiceOf v | .error _ => .ok
+      let plan : Plan := ⟨g "tags", g "fetch", g "read", g "write", (pj.getObjValAs? Nat "dieAt").toOption⟩
+      t := t + 1                      -- every load is a new loader (a fresh unique temp name)
+      tmps := (ty, t) :: tmps
+      let w1 := step w (.spawn t ty rel)
+      let (w2, trace) := runLoad w1 t plan
+      w := w2
+      let res : Json := match w.pcs t with
+        | .loaded k c => Json.mkObj [("loaded", Json.arr #[tyName k.ty, toJson k.rel, toJson c])]
+        | .dead => "dead"
+        | _ => "failed"
+      outs := outs.push (Json.mkObj [("result", res), ("trace", toJson trace), ("world", worldJson w keys tmps)])
+    | "clear" =>
+      match a[1]?.getD Json.null with
+      | .str s => w := step w (.clearTy (← tyOf s))
+      | _ => w := step w .clearAll
+      outs := outs.push (Json.mkObj [("result", "ok"), ("world", worldJson w keys tmps)])
+    | "latest" =>
+      let ty ← tyOf (← (a[1]?.getD Json.null).getStr?)
+      outs := outs.push (Json.mkObj [("result", toJson (maxTag (tags ty))), ("world", worldJson w keys tmps)])
+    | _ => throw s!"unknown store op {k}"
+  return Json.arr outs
+end C07
+
 def handle (j : Json) : Except String Json := do
   let op ← j.getObjValAs? String "op"
   match op with
@@ -622,6 +734,7 @@ def handle (j : Json) : Except String Json := do
   | "graph.batch" => graphBatch j
   | "onto.lookup" => ontoLookup j
   | "sim.hist" => simHist j
+  | "store.run" => storeRun j
   | "hpoa.load" => hpoaLoad j
   | "obo.load" => oboLoad j
   | "obo.recognise" => oboRecognise j
